@@ -43,7 +43,7 @@ def ob_time_at(shape, G, tag, budget_s=120):
             tg, tagv = tag, E.EventTag(tag)
         eng = _engine(mods, tc.build_td(mods, V))
         got = eng.time_at(Beat(symx.SymInt(kq), 48), tagv)
-        exp = tc.oracle_time(V, kq, tg)
+        exp = tc.rterm(tc.oracle_time(V, kq, tg))
         if symx.poly_identity(got._v, exp):
             return True, ("time_at", shape, "identical polynomials")
         return symx.zr(got._v) == exp, ("time_at", shape)
@@ -102,8 +102,7 @@ def ob_redundant_bpm(shape, G, budget_s=120):
             symx.CTL.assume(kx > V["kb"][j - 1])
         if j < nb:
             symx.CTL.assume(kx < V["kb"][j])
-        if not symx.feasible():
-            raise symx.Unsupported("infeasible insertion slot")  # pruned below
+        symx.require_feasible()
         kq = symx.fresh_int("kq", -G, 3 * G); tg = symx.fresh_int("tag", 0, 6)
         e1 = _engine(mods, tc.build_td(mods, V))
         e2 = _engine(mods, tc.build_td(mods, V, extra_bpm=(j, kx, V["vb"][j])))
